@@ -1,19 +1,28 @@
 #!/bin/sh
-# run the given checks of the scratch framework copy (/work/eval/verif, harness path-dependent on the
-# scratch worktree /work/eval/repo) against one seeded change.  usage: seeded_eval.sh <ID.X> <check>...
+# run the given checks of a scratch framework copy ($EVALDIR/verif, harness path-dependent on the scratch
+# worktree $EVALDIR/repo) against one seeded change.  usage: EVALDIR=/work/eval lib/seeded_eval.sh <ID.X> <check>...
 set -u
 NAME=$1; shift
-P=/work/seeded/$NAME.patch
-R=/work/eval/repo
-V=/work/eval/verif
+E=${EVALDIR:-/work/eval}
+P=/verif/seeded/$NAME/patch.diff
+R=$E/repo
+V=$E/verif
+mkdir -p /work/seeded/logs
 cd $R && git checkout -q -- . && git apply $P || { echo "$NAME apply-failed"; exit 1; }
 cd $V
 out=""
 for c in "$@"; do
-  VERIF_REPO=$R ./check $c > /work/seeded/$NAME.check.$c.log 2>&1
+  VERIF_REPO=$R ./check $c > /work/seeded/logs/$NAME.$c.log 2>&1
   rc=$?
-  v=$(grep "^VIOLATION" /work/seeded/$NAME.check.$c.log | head -1 | sed 's/VIOLATION property=[A-Z0-9]* //')
-  out="$out $c:rc=$rc[$v]"
+  v=$(grep "^VIOLATION" /work/seeded/logs/$NAME.$c.log | head -1 | sed 's/VIOLATION property=[A-Z0-9]* //')
+  w=""
+  rp=$(echo "$v" | sed -n 's/^replay=\([^ ]*\).*/\1/p')
+  [ -n "$rp" ] && [ -f "$V/$rp" ] && w=$(python3 -c "
+import json,sys
+d=json.load(open('$V/$rp'))
+t=d.get('what') or (d.get('details') or [{}])[0].get('disagreement','')
+print(' '.join(str(t).split())[:160])" 2>/dev/null)
+  out="$out $c:rc=$rc[$v | $w]"
 done
 cd $R && git checkout -q -- .
 echo "$NAME$out"
